@@ -134,6 +134,10 @@ impl Response {
                 if !/* not */matches!(self.content, Content::None) {
                     self.content = Content::None;
                 }
+                /* no content: no coding of it either (RFC 9112 6.1: never in a 204) */
+                if self.headers.TransferEncoding().is_some() {
+                    self.headers.set().TransferEncoding(None);
+                }
             }
             #[cfg(feature="sse")]
             (Content::Stream(_), _) => {
